@@ -96,6 +96,28 @@ def collection_copy_check(ctx, rng):
         if [snap.diff(a, b) for a, b in zip(before_o, before_c)] != [set()] * len(hs) or cp.name != col.name or cp.title != col.title:
             rec.fail(monitor="C12.copy.equal", op="HistogramCollection.copy", symptom="collection copy differs from the original", diff=["members"], detail={})
     target, other, snaps = (cp, col, before_o) if rng.random() < 0.5 else (col, cp, before_c)
+    if adaptive_members and rng.random() < 0.5:
+        # the copy behaves as its original: the same growing fill on the same member of both leaves both collections reporting
+        # the same bins of their own, and the grown state can be copied again
+        i = rng.randrange(len(hs))
+        v = float(rng.choice([-5.5, 8.5, 12.5]))
+        try:
+            col.histograms[i].fill(v)
+            cp.histograms[i].fill(v)
+            own_o, own_c = np.asarray(col.bins), np.asarray(cp.bins)
+            again = None
+            if own_o.shape == own_c.shape:
+                again = cp.copy()
+        except Exception as ex:
+            rec.fail(monitor="C12.copy.equal", op="HistogramCollection.copy", symptom=f"a collection copy whose member grew cannot be used / copied again: {type(ex).__name__}", diff=["raised"], detail={"error": str(ex)[:160], "member": i})
+            return
+        if own_o.shape != own_c.shape or not np.array_equal(own_o, own_c):
+            rec.fail(monitor="C12.copy.equal", op="HistogramCollection.copy", symptom="after the same fill on both sides the copy of a collection reports other bins of its own than the original (its binning is a member's object)", diff=["bins"],
+                     detail={"member": i, "original_bins": int(own_o.shape[0]), "copy_bins": int(own_c.shape[0])})
+        with attach.quiet():
+            if again is not None and any(snap.diff(snap.snapshot(a), snap.snapshot(b)) for a, b in zip(cp.histograms, again.histograms)):
+                rec.fail(monitor="C12.copy.equal", op="HistogramCollection.copy", symptom="collection copy differs from the original", diff=["members"], detail={"grown": True})
+        return
     try:
         m = rng.choice(target.histograms)
         v = np.asarray(gen.data_for_bins(rng, pairs, 4), dtype=float)
@@ -135,11 +157,18 @@ def collection_sum_check(ctx, rng):
     rec.mon("C12.world.independence")
     e = gen.edges(rng, rng.randint(1, 6))
     pairs = gen.pairs_from_edges(e)
-    k = rng.choice([1, 1, 1, 2, 3])
+    k = rng.choice([0, 1, 1, 1, 2, 3])
     hs = [physt.h1(np.asarray(gen.data_for_bins(rng, pairs, rng.randint(1, 15))), np.array(e), name=f"m{i}") for i in range(k)]
-    col = HistogramCollection(*hs)
+    col = HistogramCollection(*hs) if k else HistogramCollection(binning=physt.h1(None, np.array(e)).binning.copy())
     try:
         total = col.sum()
+        if k == 0:
+            # the empty sum is a histogram like any other: it can be added to, and carries no stray state
+            extra = physt.h1(np.asarray(gen.data_for_bins(rng, pairs, 5)), np.array(e))
+            both = total + extra
+            with attach.quiet():
+                if snap.diff(snap.snapshot(both, with_stats=False), snap.snapshot(extra, with_stats=False), ignore=("name", "title", "meta_data")):
+                    rec.fail(monitor="C12.world.independence", op="HistogramCollection.sum", symptom="the sum of an empty collection plus a histogram is not that histogram", diff=["contents"], detail={})
     except Exception as ex:
         rec.fail(monitor="C12.world.independence", op="HistogramCollection.sum", symptom=f"sum of a collection raised {type(ex).__name__}", diff=["raised"], detail={"members": k})
         return
